@@ -136,17 +136,27 @@ func (m *selMonitor) check(where string) (string, string) {
 		useCand bool
 	}
 	sent := map[[stun.TransactionIDSize]byte]reqInfo{}
+	sentElsewhere := map[[stun.TransactionIDSize]byte]reqInfo{} // to the same remote address from another local socket
 	validated, validatedWithUse, nominatedHere := false, false, false
+	crossValidated, crossValidatedWithUse := false, false
 	for _, e := range log {
 		switch {
 		case e.kind == "emit" && e.side == m.ag.side && e.d.msg != nil && e.d.msg.class == stun.ClassRequest && e.d.src == s && e.d.dst == raddr:
 			sent[e.d.msg.txid] = reqInfo{useCand: e.d.msg.useCand}
+		case e.kind == "emit" && e.side == m.ag.side && e.d.msg != nil && e.d.msg.class == stun.ClassRequest && e.d.src != s && e.d.dst == raddr:
+			sentElsewhere[e.d.msg.txid] = reqInfo{useCand: e.d.msg.useCand}
 		case e.kind == "deliver" && e.to == s && e.d.srcAt == raddr && e.d.msg != nil:
 			if e.d.msg.class == stun.ClassSuccessResponse && m.authResponse(e.d) {
 				if ri, ok := sent[e.d.msg.txid]; ok {
 					validated = true
 					if ri.useCand {
 						validatedWithUse = true
+					}
+				}
+				if ri, ok := sentElsewhere[e.d.msg.txid]; ok {
+					crossValidated = true
+					if ri.useCand {
+						crossValidatedWithUse = true
 					}
 				}
 			}
@@ -164,6 +174,11 @@ func (m *selMonitor) check(where string) (string, string) {
 		if !nominatedHere {
 			return "C03/lite/selected-without-authenticated-nomination", desc + " but no authenticated nomination was delivered on that pair"
 		}
+	case controlling && ((!validated && crossValidated) || (!validatedWithUse && crossValidatedWithUse)):
+		// D20: the answer to a check sent from another local candidate was delivered to this one
+		return "C03/selected/answer-delivered-to-other-local-candidate", desc + " on an authenticated answer whose transaction belongs to a check sent from another local candidate to the same remote address"
+	case !controlling && !validated && crossValidated:
+		return "C03/selected/answer-delivered-to-other-local-candidate", desc + " on an authenticated answer whose transaction belongs to a check sent from another local candidate to the same remote address"
 	case controlling:
 		if !validated {
 			return "C03/controlling/selected-unvalidated-pair", desc + " but no authenticated, transaction-matched success response was delivered on that pair"
@@ -420,7 +435,7 @@ func TestVerif_C03_MisbehavingPeer(t *testing.T) {
 		useDelivered := map[string]int{}
 		var oldReqs []*simDgram // unanswered checks of generations ended by Restart
 		for i := 0; i < nOps; i++ {
-			op := rapid.SampledFrom([]string{"tick", "tick", "peerRequest", "peerRequest", "peerRequest", "answer", "answer", "answer", "answer", "answerFromElsewhere", "dropRequest", "signal", "signal", "dupAnswer", "restart", "answerOld", "answerOld"}).Draw(rt, "op")
+			op := rapid.SampledFrom([]string{"tick", "tick", "peerRequest", "peerRequest", "peerRequest", "answer", "answer", "answer", "answer", "answerFromElsewhere", "answerToOtherLocal", "dropRequest", "signal", "signal", "dupAnswer", "restart", "answerOld", "answerOld"}).Draw(rt, "op")
 			arg := rapid.IntRange(0, 11).Draw(rt, "arg")
 			s.purgeNonRequests()
 			switch op {
@@ -522,6 +537,22 @@ func TestVerif_C03_MisbehavingPeer(t *testing.T) {
 				s.answer(d, other)
 				lbl["response-from-other-address"] = true
 				s.ops = append(s.ops, fmt.Sprintf("answerFromElsewhere(%s via %s)", d, other.name()))
+			case "answerToOtherLocal":
+				// the (authenticated) peer sends the answer to a check to another local address of the agent
+				reqs := s.agentRequests()
+				if len(reqs) == 0 || len(s.ag.socks) < 2 {
+					continue
+				}
+				d := reqs[arg%len(reqs)]
+				ep := s.epByAddr(d.dst)
+				other := s.ag.socks[(arg/2)%len(s.ag.socks)]
+				if ep == nil || other == d.src || other.priv.Addr().Is4() != ep.priv.Addr().Is4() {
+					continue
+				}
+				s.removeInflight(d)
+				s.inject(ep, other, simBuildSuccess(d.msg.txid, other.pub, s.peer.pwd, true).Raw)
+				lbl["response-to-other-local-address"] = true
+				s.ops = append(s.ops, fmt.Sprintf("answerToOtherLocal(%s via %s)", d, other.name()))
 			case "dropRequest":
 				reqs := s.agentRequests()
 				if len(reqs) == 0 {
@@ -535,7 +566,12 @@ func TestVerif_C03_MisbehavingPeer(t *testing.T) {
 				s.ops = append(s.ops, fmt.Sprintf("signal(%s %s prio=%d)", s.eps[i].name(), eps[i].Typ, eps[i].Prio))
 			}
 			if sig, msg := mon.check(fmt.Sprintf("step %d (%s)", i, op)); sig != "" {
-				st.Fail(rt, sig, "%s\nops: %s", msg, strings.Join(s.ops, "; "))
+				if !st.Fail(rt, sig, "%s\nops: %s", msg, strings.Join(s.ops, "; ")) {
+					// known finding: counted; the history ends here (what follows would build on that selection)
+					lbl["ended-at-known-finding"] = true
+
+					break
+				}
 			}
 			if sig, msg := mon.emitInvariant(); sig != "" {
 				st.Fail(rt, sig, "%s\nops: %s", msg, strings.Join(s.ops, "; "))
